@@ -170,6 +170,7 @@ class WriteMultipleCoilsRequest(ModbusRequest):
         elif not hasattr(values, '__iter__'): values = [values]
         self.values  = values
         self.byte_count = (len(self.values) + 7) // 8
+        self._quantity = None
 
     def encode(self):
         ''' Encodes write coils request
@@ -190,6 +191,7 @@ class WriteMultipleCoilsRequest(ModbusRequest):
         self.address, count, self.byte_count = struct.unpack('>HHB', data[0:5])
         values = unpack_bitstring(data[5:])
         self.values = values[:count]
+        self._quantity = count
 
     def execute(self, context):
         ''' Run a write coils request against a datastore
@@ -201,6 +203,9 @@ class WriteMultipleCoilsRequest(ModbusRequest):
         if not (1 <= count <= 0x07b0):
             return self.doException(merror.IllegalValue)
         if (self.byte_count != (count + 7) // 8):
+            return self.doException(merror.IllegalValue)
+        if self._quantity not in [None, count]:
+            # fewer output values were supplied than the quantity field announces
             return self.doException(merror.IllegalValue)
         if not context.validate(self.function_code, self.address, count):
             return self.doException(merror.IllegalAddress)
